@@ -177,6 +177,14 @@ Theorem C01_generated_classImplementsFirst_eq_model : forall g st x c i,
 Proof. exact generated_classImplementsFirst_eq. Qed.
 Print Assumptions C01_generated_classImplementsFirst_eq_model.
 
+(* implementedBy(): the ClassProvides installed on a new class names its metaclass, so that
+   computing implementedBy(cls) does not change what the class object provides *)
+Theorem C01_generated_implementedBy_class_provides_eq_model : forall g st x c r,
+  nth_error (classes st) c = Some r -> c_cprov r = [] ->
+  gen_implementedBy_class_provides g (embed_exc st x) (TCls c) = embed_exc st x.
+Proof. exact generated_implementedBy_class_provides_eq. Qed.
+Print Assumptions C01_generated_implementedBy_class_provides_eq_model.
+
 (* the Provides factory: cache hit or construction + store *)
 Theorem C01_generated_Provides_eq_model : forall g st x d args st1 k,
   provides g st d args = (st1, k) ->
@@ -228,14 +236,15 @@ Theorem C01_generated_cache_keys_unique : forall ev g ops, NoDup (map fst (cache
 Proof. exact cku_run. Qed.
 Print Assumptions C01_generated_cache_keys_unique.
 
-(* ---- non-vacuity.  I1 extends I0; I2 alone.  C2(C0, C1): multiple inheritance. *)
+(* ---- non-vacuity.  I1 extends I0; I2 alone.  C2(C0, C1): multiple inheritance; C1 has a custom
+   metaclass that implements I1. *)
 Definition ex_g : igraph := [[]; [0]; []].
 Definition ex_ops : list op :=
-  [NewClass []; Implementer 0 [1]; NewClass []; NewClass [0; 1]; NewInstance 2;
+  [NewClass [] None; Implementer 0 [1]; NewClass [] (Some [1]); NewClass [0; 1] None; NewInstance 2;
    DirectlyProvides (TInst 0) [0; 2];      (* I0 is redundant (C2 inherits I1 from C0): dropped *)
    ClassImplementsOnly 0 [2];              (* the base is narrowed: the shared declaration is evicted *)
    NewInstance 2; DirectlyProvides (TInst 1) [0; 2];  (* same arguments: now I0 is kept, I2 dropped *)
-   NewInstance 1; Provider (TCls 1) [1]; AlsoProvides (TInst 2) [1]; NoLongerProvides (TInst 2) 1].
+   NewInstance 1; Provider (TCls 1) [0; 2]; AlsoProvides (TInst 2) [1]; NoLongerProvides (TInst 2) 1].
 
 Example C01_witness :
   wf_igraph ex_g /\
@@ -245,7 +254,8 @@ Example C01_witness :
   lo_provided ex_g (lrun ex_g ex_ops) (TInst 0) = [2; 2] /\
   hi_provided ex_g (lrun ex_g ex_ops) (TInst 0) = [0; 2; 2] /\
   implemented ex_g st 2 = [2] /\ implemented ex_g st 1 = [] /\
-  provided ex_g st (TCls 1) = [1; 0] /\ provided ex_g st (TInst 2) = [] /\
+  (* C1's metaclass implements I1: I0 asked on the class object is redundant, I2 is kept *)
+  provided ex_g st (TCls 1) = [2; 1; 0] /\ dpb st (TCls 1) = [2] /\ provided ex_g st (TInst 2) = [] /\
   depends st 2 0 = true /\ depends st 1 0 = false /\
   cache st <> [] /\
   filter (fun p => negb (other_inst_decl 1 p)) ex_ops <> ex_ops /\
